@@ -8,16 +8,29 @@ import vlib
 FORMATS = ["uri", "uripost", "raw", "json"]
 
 
-def design_level(cfgs_pass, cfgs_fail, workers=8, heap="4g"):
-    """TLC on AmmoFormatsMC: configs that must hold / negative controls that must fail."""
+ACTIONS = ("ReadHeader", "ReadBlank", "ReadEntry", "EOFWrap")
+
+
+def design_level(cfgs_pass, cfgs_fail, workers=8, heap="4g", coverage=False):
+    """TLC on AmmoFormatsMC: configs that must hold / negative controls that must fail.
+    coverage=True (thorough): every reader action must have been taken (count 0 = machinery failure)."""
+    import re
     states = trans = 0
     detail = {}
     for cfg in cfgs_pass:
-        r = vlib.tlc("AmmoFormatsMC", cfg, deadlock=False, timeout=1800, workers=workers, heap=heap)
+        cov = coverage and "_exh" in cfg
+        r = vlib.tlc("AmmoFormatsMC", cfg, deadlock=False, timeout=1800, workers=workers, heap=heap, coverage=cov)
         vlib.tlc_must_pass(r, cfg)
         states += r.distinct
         trans += r.generated
         detail[cfg] = {"states": r.distinct, "wall_s": round(r.wall, 1)}
+        if cov:
+            counts = {m.group(1): int(m.group(2)) for m in
+                      re.finditer(r"^<(\w+) line \d+, col \d+ to line \d+, col \d+ of module AmmoFormatsMC>: (\d+):\d+", r.out, re.M)}
+            for a in ACTIONS:
+                if counts.get(a, 0) == 0:
+                    raise vlib.MachineryError("action %s of AmmoFormatsMC was never taken in %s (coverage %r)" % (a, cfg, counts))
+            detail[cfg]["action_counts"] = {a: counts[a] for a in ACTIONS}
     for cfg in cfgs_fail:
         r = vlib.tlc("AmmoFormatsMC", cfg, deadlock=False, timeout=600, workers=workers, heap=heap)
         vlib.tlc_must_fail(r, cfg)
